@@ -341,19 +341,25 @@ pub fn record(args: &[String]) {
             let vars = coerce_variable_values(&schema, op, &JsonMap::new()).map_err(|e| format!("tool: {e:?}"))?;
             let resp = introspection::partial_execute(&schema, &schema.implementers_map(), &doc, op, &vars).map_err(|e| format!("request error: {e:?}"))?;
             let j: J = serde_json::to_value(&resp).unwrap();
-            Ok::<_, String>((j, concrete))
+            // the same query with every `(includeDeprecated: true)` removed: the default (false) filters deprecated entries
+            let q2 = FULL_QUERY.replace("(includeDeprecated: true)", "");
+            let doc2 = ExecutableDocument::parse_and_validate(&schema, q2, "q2.graphql").map_err(|e| format!("tool: query 2 invalid: {}", e.errors))?;
+            let op2 = doc2.operations.get(None).map_err(|_| "tool: no operation".to_string())?;
+            let resp2 = introspection::partial_execute(&schema, &schema.implementers_map(), &doc2, op2, &vars).map_err(|e| format!("request error: {e:?}"))?;
+            let j2: J = serde_json::to_value(&resp2).unwrap();
+            Ok::<_, String>((j, concrete, j2))
         });
         match r {
-            Ok(Ok((j, concrete))) => {
-                let errors = j.get("errors").and_then(|e| e.as_array()).map(|a| a.len()).unwrap_or(0);
+            Ok(Ok((j, concrete, j2))) => {
+                let errors = j.get("errors").and_then(|e| e.as_array()).map(|a| a.len()).unwrap_or(0) + j2.get("errors").and_then(|e| e.as_array()).map(|a| a.len()).unwrap_or(0);
                 let data = j.get("data").cloned().unwrap_or(J::Null);
                 let keys: Vec<String> = data.as_object().map(|m| m.keys().cloned().collect()).unwrap_or_default();
-                out.line(&json!({"schema": abs, "resp": norm(&data["__schema"]), "hasData": data["__schema"].is_object(), "errors": errors, "errorsText": j.get("errors"), "dataKeys": keys, "concrete": concrete, "crash": false, "sdl": sdl}));
+                out.line(&json!({"schema": abs, "resp": norm(&data["__schema"]), "respNoDep": norm(&j2["data"]["__schema"]), "hasData": data["__schema"].is_object() && j2["data"]["__schema"].is_object(), "errors": errors, "errorsText": j.get("errors"), "dataKeys": keys, "concrete": concrete, "crash": false, "sdl": sdl}));
                 emitted += 1;
             }
             Ok(Err(e)) if e.starts_with("invalid") => out.line(&json!({"skipped": e, "sdl": sdl})),
-            Ok(Err(e)) => { out.line(&json!({"schema": abs, "resp": {}, "hasData": false, "errors": 1, "errorsText": e, "dataKeys": [], "concrete": false, "crash": false, "sdl": sdl})); emitted += 1; }
-            Err(p) => { out.line(&json!({"schema": abs, "resp": {}, "hasData": false, "errors": 0, "dataKeys": [], "concrete": false, "crash": true, "panic": p, "sdl": sdl})); emitted += 1; }
+            Ok(Err(e)) => { out.line(&json!({"schema": abs, "resp": {}, "respNoDep": {}, "hasData": false, "errors": 1, "errorsText": e, "dataKeys": [], "concrete": false, "crash": false, "sdl": sdl})); emitted += 1; }
+            Err(p) => { out.line(&json!({"schema": abs, "resp": {}, "respNoDep": {}, "hasData": false, "errors": 0, "dataKeys": [], "concrete": false, "crash": true, "panic": p, "sdl": sdl})); emitted += 1; }
         }
     }
 }
